@@ -36,11 +36,14 @@ PROPS = {
         units_quick=['finalexp', 'tower'], units_thorough=['finalexp', 'tower'], timeout=1800,
         claim="Bls12::final_exponentiation (real body): returns None exactly for f = 0 and otherwise f^E with E = 3(q^12-1)/r: the exponent accumulated "
               "by the real statements (conjugate, inverse, Frobenius 1..3, squarings, exp_by_x with the crate's BLS_X) is tracked as an integer and "
-              "shown congruent to E modulo q^12-1; the Fq12 operations it calls are the contracts proved for the real tower code in unit `tower`. "
+              "shown congruent to E modulo q^12-1; the Fq12 operations it calls are the contracts proved for the real tower code in unit `tower`; "
+              "the exponentiation f.pow(&[x]) inside exp_by_x is ff's generic square-and-multiply loop (text of the pinned registry source), verified here at Fq12: pow(f,[e]) = f^e for every u64 e. "
               "Multiplicativity, image in mu_r and triviality on proper subfields are arithmetic corollaries of the exponent (not separate obligations).",
         not_covered=["that conjugation / the coefficient-wise Frobenius maps are x -> x^(q^k) (A5')", "Lagrange in Fq12* (A7)",
-                     "ff's generic Field::pow (contract assumed here: pow(x,[e]) = x^e; it is C08's obligation)"],
-        assumptions=[A['A5p'], A['A7'], "laws of f12pow in specs/f12pow.vrs (ring theory of the commutative ring of specs/tower.vrs)", A['D_FQ'], A['TOOLS']],
+                     "ff's BitIterator (dependency) enters through its contract, proved on the pinned registry source in unit ffdep"],
+        assumptions=[A['A5p'], A['A7'], "laws of f12pow in specs/f12pow.vrs (ring theory of the commutative ring of specs/tower.vrs), including f^0 = 1 (ax_f12pow_zero)",
+                     "Field::pow (ff's generic default method) is verified in this unit at Fq12 with a one-limb exponent, the instance exp_by_x calls (rewrite R6: `S: AsRef<[u64]>` written out as &[u64; 1]); "
+                     "its callee BitIterator::next enters through the contract proved in unit ffdep", A['D_FQ'], A['TOOLS']],
     ),
     'C11': dict(
         design_ref='DESIGN.md sections 0 and 9.8 (unit miller); section 3 shows the earlier plan',
